@@ -387,10 +387,10 @@ Section Obj.
   Lemma push_from_cache_ext o c : Pre o c -> ExtP o c (push_from_cache E o c).
   Proof.
     intros P. unfold push_from_cache. destruct (cache_replay_blocked o); [apply Ext_refl, P|].
-    assert (H : List.rev (r_cache o) <> [] -> Live o).
+    assert (H : r_cache o <> [] -> Live o).
     { intros H. apply Quiet_cache; [exact (proj1 P)|]. intros Hc. rewrite Hc in H. apply H. reflexivity. }
-    pose proof (drain_cache_ext (List.rev (r_cache o)) o c P H) as K.
-    destruct (drain_cache E (List.rev (r_cache o)) o c) as [o1 c1]. unfold ExtP in *. cbn [fst snd] in *.
+    pose proof (drain_cache_ext (r_cache o) o c P H) as K.
+    destruct (drain_cache E (r_cache o) o c) as [o1 c1]. unfold ExtP in *. cbn [fst snd] in *.
     eapply Ext_trans; [exact K|].
     pose proof (e_pre _ _ _ _ K) as P1.
     apply Ext_upd; [exact P1|reflexivity|reflexivity|exact (proj1 P1)|reflexivity|reflexivity].
